@@ -494,6 +494,23 @@ pub fn gen_ck(rng: &mut Rng, thorough: bool, out: &mut String) {
     for inp in ed_inputs {
         ck_line("ed", &inp, out);
     }
+    // secrets exported by keys the library generates itself
+    for _ in 0..(if thorough { 64 } else { 12 }) {
+        ck_generated_line("secp", out);
+        ck_generated_line("ed", out);
+    }
+}
+
+/// `CombinedKey::generate_*` as a source of inputs: the secret a generated key exports is imported
+/// like any other 32-byte input (C17 speaks of imports; nothing is demanded of generation itself)
+pub fn ck_generated_line(kind: &str, out: &mut String) {
+    let exp = guard(|| {
+        let g = if kind == "secp" { CombinedKey::generate_secp256k1() } else { CombinedKey::generate_ed25519() };
+        g.encode()
+    });
+    if let Some(exp) = exp {
+        ck_line(kind, &exp, out);
+    }
 }
 
 /// the import alone, from a window that starts `shift` bytes past a 16-byte boundary; returns the
